@@ -4,6 +4,7 @@ import (
 	"bytes"
 	"encoding/json"
 	"fmt"
+	"os"
 	"sync"
 	"time"
 
@@ -38,7 +39,7 @@ type c03Params struct {
 func (c03) ID() string    { return "C03" }
 func (c03) Level() string { return "fault_enumeration" }
 func (c03) Rule() string {
-	return "a man in the middle between two real endpoints applies one fault to the handshake: XOR with 0x01 / 0x80 / 0xFF at a byte position of a record (quick: a stratified sample of positions of every record, thorough: every position), drop, duplicate, swap with the next, truncate, or inject a record of any content type before any record (stream stack); corrupt at a position, drop, duplicate, delay or truncate a datagram (datagram stack, under virtual time so that retransmission can repair); plus seeded multi-fault plans (thorough); full and resumed handshakes, four suites, with and without client authentication. An untampered run with the same seeds is the baseline. Oracle: no task panics, and it is never the case that both endpoints complete unless version, suite, ALPN, resumption flag and session id equal the baseline's, the Finished values both sides recorded agree, and (stream stack) the handshake and ChangeCipherSpec payloads delivered to each endpoint are byte for byte what the other sent. distinct = distinct (mode, fault); non-trivial = the fault hit a record / datagram of the handshake"
+	return "a man in the middle between two real endpoints applies one fault to the handshake: XOR with 0x01 / 0x80 / 0xFF at a byte position of a record (quick: a stratified sample of positions of every record, thorough: every position), drop, duplicate, swap with the next, truncate, or inject a record of any content type before any record (stream stack); corrupt at a position, drop, duplicate, delay or truncate a datagram (datagram stack, under virtual time so that retransmission can repair); plus seeded multi-fault plans (thorough); full and resumed handshakes, four suites, with and without client authentication. An untampered run with the same seeds is the baseline. Oracle: no task panics, and it is never the case that both endpoints complete unless version, suite, ALPN, resumption flag and session id equal the baseline's, the Finished values both sides recorded agree, (stream stack) the handshake and ChangeCipherSpec payloads delivered to each endpoint are byte for byte what the other sent - also tried with hellos re-encoded to the same fields (unknown extension appended, extensions exchanged, bytes behind the extensions) - and (datagram stack) no completion without a timer expiry when a payload byte of a handshake or ChangeCipherSpec record (hellos of the cookie exchange excepted: they are re-sent on a fresh HelloVerifyRequest) was changed. distinct = distinct (mode, fault); non-trivial = the fault hit a record / datagram of the handshake"
 }
 func (c03) Components() (real, stub []string) {
 	return []string{"tlcp/dtlcp client+server (instrumented): transcript hashing, Finished, record layer, state machines, retransmission"},
@@ -61,11 +62,25 @@ var (
 
 // c03Baseline runs the untampered handshake of a mode and returns the record lengths per direction (stream)
 // or datagram lengths per direction (datagram) of the connection under attack.
-func c03Baseline(m c03Mode) [2][]int {
+func c03Baseline(m c03Mode) ([2][]int, [2][][]byte) {
 	p := &c03Params{c03Mode: m}
 	c := &Case{Seed: 4242}
 	res := c03Execute(c, vs.NewSrc(1, nil), p, &Result{}, true)
-	return res.lens
+	return res.lens, res.sentUnits
+}
+
+// c03CCSOffsets lists the offsets in a datagram that hold the payload of a ChangeCipherSpec record.
+func c03CCSOffsets(d []byte) (offs []int) {
+	for q := 0; q+13 <= len(d); {
+		n := int(d[q+11])<<8 | int(d[q+12])
+		if d[q] == 20 {
+			for i := 0; i < n; i++ {
+				offs = append(offs, q+13+i)
+			}
+		}
+		q += 13 + n
+	}
+	return
 }
 
 func c03List(tier string) []c03Params {
@@ -76,7 +91,7 @@ func c03List(tier string) []c03Params {
 	c03Once[ti].Do(func() {
 		var out []c03Params
 		for _, m := range c03Modes {
-			lens := c03Baseline(m)
+			lens, units := c03Baseline(m)
 			for dir := 0; dir < 2; dir++ {
 				for rec, L := range lens[dir] {
 					pos := func(off int) bool {
@@ -107,6 +122,12 @@ func c03List(tier string) []c03Params {
 								out = append(out, c03Params{c03Mode: m, RF: []simnet.RFault{{Dir: dir, N: rec, Kind: simnet.RTrunc, Keep: keep}}})
 							}
 						}
+						if rec == 0 {
+							// the hello of this direction re-encoded: same fields, other bytes
+							for how := 0; how < 3; how++ {
+								out = append(out, c03Params{c03Mode: m, RF: []simnet.RFault{{Dir: dir, N: 0, Kind: simnet.RRewrite, Off: how}}})
+							}
+						}
 						for _, typ := range []byte{20, 21, 22, 23, 24} {
 							inj := [][]byte{{typ, 1, 1, 0, 1, 1}, {typ, 1, 1, 0, 2, 1, 0}, {typ, 1, 1, 0, 0}, append([]byte{typ, 1, 1, 0, 8}, 20, 0, 0, 4, 1, 2, 3, 4)}
 							for _, b := range inj {
@@ -114,8 +135,14 @@ func c03List(tier string) []c03Params {
 							}
 						}
 					} else {
+						ccs := map[int]bool{}
+						if rec < len(units[dir]) {
+							for _, o := range c03CCSOffsets(units[dir][rec]) {
+								ccs[o] = true
+							}
+						}
 						for off := 0; off < L; off++ {
-							if ti == 0 && !(off < 30 || off%13 == rec%13) {
+							if ti == 0 && !(off < 30 || off%13 == rec%13 || ccs[off]) {
 								continue
 							}
 							if ti == 1 && L > 600 && off%3 != 0 {
@@ -162,6 +189,8 @@ type c03Out struct {
 	hsStream  [2][2][]byte // [sent/delivered][dir] handshake + CCS payload bytes (stream stack)
 	allFired  bool
 	panicked  bool
+	timeouts  int         // read deadlines that expired on the attacked connection (no retransmission without one)
+	sentUnits [2][][]byte // datagrams as sent on the attacked connection
 }
 
 // c03Execute runs the (possibly resumed) handshake with or without the faults.
@@ -219,7 +248,15 @@ func c03Execute(c *Case, src *vs.Src, p *c03Params, r *Result, baseline bool) *c
 			continue
 		}
 		// measurements on the attacked connection
+		if pair.Net != nil && os.Getenv("VERIF_DEBUG") != "" && !baseline {
+			for _, d := range pair.Net.SentLog() {
+				fmt.Fprintf(os.Stderr, "dgram dir=%d t=%v len=%d dropped=%v %x\n", d.Dir, d.SentAt, len(d.Data), d.Dropped, d.Data[:min(len(d.Data), 48)])
+			}
+			fmt.Fprintf(os.Stderr, "timeouts=%d elapsed=%v cerr=%v serr=%v\n", w.K.Timeouts, w.K.Elapsed(), out.CErr, out.SErr)
+		}
 		units := pair.WireUnits(true)
+		res.timeouts = w.K.Timeouts
+		res.sentUnits = units
 		for d := 0; d < 2; d++ {
 			if pair.Pipe != nil {
 				recs, _ := ref.ParseRecords(units[d][0], false)
@@ -349,6 +386,28 @@ func (c03) Run(c *Case, src *vs.Src) *Result {
 	}
 	if !equalDERs(o.CCS.Peer, b.CCS.Peer) || !equalDERs(o.SCS.Peer, b.SCS.Peer) {
 		r.Violate("views-differ", sigp+" peer-certificates-differ "+kind, "peer certificate lists differ from the untampered handshake; fault %s", fault)
+	}
+	if p.Stack == DTLCP && len(p.DF) == 1 && p.DF[0].Kind == simnet.FCorrupt && att.allFired && att.timeouts == 0 {
+		// a datagram endpoint may drop a damaged message and accept its retransmission - but nothing is
+		// retransmitted before a timer expires. Both completed, no timer expired: if the damaged byte lies in
+		// the payload of a handshake or ChangeCipherSpec record (headers are exempt), that message was accepted
+		// although it is not what the other side sent.
+		f := p.DF[0]
+		if f.N < len(att.sentUnits[f.Dir]) {
+			d := att.sentUnits[f.Dir][f.N]
+			off := int(f.P) % len(d)
+			for q := 0; q+13 <= len(d); {
+				n := int(d[q+11])<<8 | int(d[q+12])
+				// ClientHello and HelloVerifyRequest are exempt: a hello that the cookie check refuses is answered by a
+				// fresh HelloVerifyRequest and re-sent at once, without any timer
+				cookiePhase := d[q] == 22 && n > 0 && q+13 < len(d) && d[q+4] == 0 && (d[q+13] == 1 || d[q+13] == 3)
+				if (d[q] == 22 || d[q] == 20) && !cookiePhase && off >= q+13 && off < q+13+n {
+					r.Violate("tampered-accepted", sigp+" damaged-message-accepted-without-retransmission", "both endpoints completed without any timer expiring although byte %d of datagram %d in direction %d (payload of a record of type %d, epoch %d, %d bytes) was changed in transit (mask %#x): the damaged message was accepted", off, f.N, f.Dir, d[q], int(d[q+3])<<8|int(d[q+4]), n, f.Mask)
+					break
+				}
+				q += 13 + n
+			}
+		}
 	}
 	if p.Stack == TLCP {
 		if !bytes.Equal(att.sid, base.sid) && o.CCS.Resumed {
